@@ -116,15 +116,17 @@ def _to_hs(n):
         return hszinc.Coordinate(n[1], n[2])
     if k == 'list':
         if ALIAS:
-            if n not in _alias_memo:
-                _alias_memo[n] = [to_hs(x) for x in n[1]]
-            return _alias_memo[n]
+            key = repr(n)          # (not n itself: 0 == -0.0 == False and 1 == 1.0 == True as dictionary keys)
+            if key not in _alias_memo:
+                _alias_memo[key] = [to_hs(x) for x in n[1]]
+            return _alias_memo[key]
         return [to_hs(x) for x in n[1]]
     if k == 'dict':
         if ALIAS:
-            if n not in _alias_memo:
-                _alias_memo[n] = dict((kk, to_hs(x)) for kk, x in n[1])
-            return _alias_memo[n]
+            key = repr(n)
+            if key not in _alias_memo:
+                _alias_memo[key] = dict((kk, to_hs(x)) for kk, x in n[1])
+            return _alias_memo[key]
         return dict((kk, to_hs(x)) for kk, x in n[1])
     if k == 'grid':
         return to_grid(n)
@@ -182,9 +184,10 @@ def to_grid(n):
         _alias_memo.clear()
         memo = {}
         for row in rows:
-            if row not in memo:
-                memo[row] = dict((c, to_hs(v)) for c, v in row)
-            g.append(memo[row])
+            key = repr(row)
+            if key not in memo:
+                memo[key] = dict((c, to_hs(v)) for c, v in row)
+            g.append(memo[key])
         return g
     for row in rows:
         g.append(dict((c, to_hs(v)) for c, v in row))
